@@ -227,11 +227,9 @@ static void double_step()
 extern "C" void harness_range_i32() { int_ops<int32_t>(); }   /* vf: bounds=all_int32_operands_and_probe;23_operations */
 extern "C" void harness_range_i16() { int_ops<int16_t>(); }   /* vf: bounds=all_int16_operands_and_probe;23_operations */
 extern "C" void harness_range_i8() { int_ops<int8_t>(); }     /* vf: bounds=all_int8_operands_and_probe;23_operations */
+// multiplication (a symbolic-by-symbolic product) is decided for all int8 operands; the same queries for int16 / int32 operands were tried with
+// z3, cvc5 (bit-blasting and --solve-bv-as-int=sum) and did not finish within 15 minutes per query, so they are outside the claim
 extern "C" void harness_range_mul_i8() { mul_range<int8_t>(); }   /* vf: bounds=all_int8_operands;16_sign_cases timeout_ms=60000 external=cvc5int */
 extern "C" void harness_range_mulelem_i8() { mul_elem<int8_t>(); } /* vf: bounds=all_int8_operands;8_sign_cases timeout_ms=60000 external=cvc5int */
-extern "C" void harness_range_mul_i16() { mul_range<int16_t>(); } /* vf: tier=thorough bounds=all_int16_operands;16_sign_cases timeout_ms=300000 external=cvc5int */
-extern "C" void harness_range_mulelem_i16() { mul_elem<int16_t>(); } /* vf: tier=thorough bounds=all_int16_operands;8_sign_cases timeout_ms=300000 external=cvc5int */
-extern "C" void harness_range_mul_i32() { mul_range<int32_t>(); } /* vf: tier=thorough bounds=all_int32_operands;16_sign_cases timeout_ms=300000 external=cvc5int */
-extern "C" void harness_range_mulelem_i32() { mul_elem<int32_t>(); } /* vf: tier=thorough bounds=all_int32_operands;8_sign_cases timeout_ms=300000 external=cvc5int */
 extern "C" void harness_range_double() { double_ops(); }      /* vf: bounds=all_non-NaN_doubles;18_operations(comparisons,element_overloads,named_aliases) */
 extern "C" void harness_range_double_step() { double_step(); } /* vf: bounds=gt/lt:bound_and_probe_from_a_13-value_boundary_pool,interval_ends_from_5_values_(nexttoward_is_concrete) */
